@@ -20,7 +20,7 @@ import (
 // raw case = (provider cap dflt mode requests)
 //   request = (ct ce value codec pretty enc broken)
 //     value  = (i s b items)            codec 0 json 1 xml: the entity WRITER used to produce the body
-//     enc    = 0 none 1 gzip 2 deflate : how the body really is encoded
+//     enc    = 0 none 1 gzip 2 deflate 3 gzip in two members : how the body really is encoded
 //     broken = 0 intact 1 truncated to half 2 first two bytes overwritten 3 garbage 4 empty
 //   ct / ce  = the Content-Type / Content-Encoding the request declares (may disagree with the above)
 // full case adds per request the oracle rows computed with the standard library alone:
@@ -126,8 +126,8 @@ func genEnt(r *Rng) Sx {
 		} else if r.Pct(30) {
 			ct += r.Pick([]string{"; charset=utf-8", ";q=1", " ;x=y"})
 		}
-		enc := []int{0, 0, 1, 1, 2}[r.Intn(5)]
-		ce := []string{"", "gzip", "deflate"}[enc]
+		enc := []int{0, 0, 1, 1, 2, 3}[r.Intn(6)]
+		ce := []string{"", "gzip", "deflate", "gzip"}[enc]
 		if r.Pct(15) {
 			ce = r.Pick([]string{"", "gzip", "deflate", "identity", "GZIP", "br"})
 		}
@@ -175,6 +175,13 @@ func entBody(rq Sx) []byte {
 		zw := zlib.NewWriter(&out)
 		zw.Write(plain)
 		zw.Close()
+	case 3: // gzip, two members (RFC 1952 allows a stream of members; a decoder must read them all)
+		h := len(plain) / 2
+		for _, part := range [][]byte{plain[:h], plain[h:]} {
+			zw := gzip.NewWriter(&out)
+			zw.Write(part)
+			zw.Close()
+		}
 	default:
 		out.Write(plain)
 	}
